@@ -439,6 +439,10 @@ def align_variable_names_with_convention(
             for node in parsing.iter_classdefs(partial_tree):
                 name = node.name
                 classdefs.append(node)
+                # Don't rename nested classes that are accessed as attributes of some object,
+                # since those accesses cannot be renamed with it.
+                if any(core.walk(ast_tree, ast.Attribute(attr=name))):
+                    continue
                 substitute = style.rename_class(name, private=parsing.is_private(name))
                 renamings[node].add(substitute)
                 for refnode in _get_uses_of(node, partial_tree, source):
